@@ -180,6 +180,14 @@ func c11Run(in string) string {
 				t := aead.AES128GCMKeyTemplate()
 				t.OutputPrefixType = tinkpb.OutputPrefixType_UNKNOWN_PREFIX
 				idres(km.Add(t))
+			case op == "AL":
+				// a key type that has only a key manager (KMS envelope AEAD, RAW prefix): Manager.Add
+				// takes the legacy registry path (NewKeyData, NewKeySerialization, ParseKey)
+				t, err := aead.CreateKMSEnvelopeAEADKeyTemplate("verif-kms://c11", aead.AES128GCMKeyTemplate())
+				if err != nil {
+					panic(err)
+				}
+				idres(km.Add(t))
 			case op == "AB":
 				idres(km.Add(&tinkpb.KeyTemplate{TypeUrl: "type.googleapis.com/verif.Unregistered", OutputPrefixType: tinkpb.OutputPrefixType_TINK}))
 			case op == "PT":
@@ -415,7 +423,7 @@ func c11Gen(r *hx.Rng, n int, tier string) []string {
 		for i := 0; i < nops; i++ {
 			switch x := r.Intn(100); {
 			case x < 14:
-				ops = append(ops, hx.PickS(r, []string{"AT", "AT", "AR", "AN", "AU", "AB", "PT", "PR"}))
+				ops = append(ops, hx.PickS(r, []string{"AT", "AT", "AR", "AN", "AU", "AB", "AL", "PT", "PR"}))
 			case x < 19 && r.Chance(60):
 				// AddKeyWithOpts with a random option list in random order
 				req := "R"
